@@ -200,9 +200,8 @@ COMPOUND = COMPOUND + MATCH
 # structural representatives: one compound per kind of block slot (used as OUTER statement at full inner width in quick)
 STRUCT = [
     'if $a:\n    $B1\nelif $b:\n    $B2\nelse:\n    $B3', 'while $a:\n    $B1\nelse:\n    $B2', 'for $a in $b:\n    $B1\nelse:\n    $B2',
-    'for $a in range($b):\n    $B1', 'try:\n    $B1\nexcept $a as $b:\n    $B2\nelse:\n    $B3\nfinally:\n    $B4', 'try:\n    $B1\nexcept:\n    $B2',
-    'try:\n    $B1\nfinally:\n    $B2', 'with $a as $b:\n    $B1', 'async for $a in $b:\n    $B1\nelse:\n    $B2', 'async with $a as $b:\n    $B1',
-    'def $q():\n    $B1', 'def $q(x, /, y, z=1, *args, k, k2=2, **kw):\n    $B1', 'async def $q():\n    $B1', 'class $q:\n    $B1',
+    'try:\n    $B1\nexcept $a as $b:\n    $B2\nelse:\n    $B3\nfinally:\n    $B4', 'try:\n    $B1\nfinally:\n    $B2', 'with $a as $b:\n    $B1', 'async for $a in $b:\n    $B1\nelse:\n    $B2', 'async with $a as $b:\n    $B1',
+    'def $q():\n    $B1', 'async def $q():\n    $B1', 'class $q:\n    $B1',
     'class $q:\n    def m(self):\n        $B1', 'match $a:\n    case [$m, *$n] if $b:\n        $B1\n    case _:\n        $B2',
     'match $a:\n    case {"k": $m}:\n        $B1', 'match $a:\n    case int($m) | str($m):\n        $B1',
 ]
@@ -798,7 +797,11 @@ def family_c(tier):
             return
         seen.add(key)
         out.append((fam, tag, ext, data, seed))
-    seeds = [('.py', s) for s in SEEDS_PY] + [('.pyx', s) for s in SEEDS_PYX]
+    if tier == 'quick':
+        # a smaller complete corpus: the first 24 .py seeds and the 10 .pyx seeds without memoryview/fused/prange machinery
+        seeds = [('.py', s) for s in SEEDS_PY[:24]] + [('.pyx', SEEDS_PYX[i]) for i in (0, 1, 2, 3, 4, 7, 8, 10, 11, 15)]
+    else:
+        seeds = [('.py', s) for s in SEEDS_PY] + [('.pyx', s) for s in SEEDS_PYX]
     for k, (ext, s) in enumerate(seeds):
         add('c-seed', 'seed#%d%s' % (k, ext), ext, s.encode('utf-8'), True)
     for k, (ext, s) in enumerate(seeds):
